@@ -14,17 +14,18 @@ import (
 type C17Call struct {
 	Method  string `json:"method"`
 	Variant int    `json:"variant"`
+	Arg     string `json:"arg,omitempty"` // when set: every `any`-typed argument is this catalogue entry (by name), not a hashed pick
 }
 
 type C17Case struct {
-	Mode  string    `json:"mode"`  // inert | free | reset | pkgfunc
-	State string    `json:"state"` // zero-stack freed-stack zero-cond freed-cond init-cond nil-aux
-	Calls []C17Call `json:"calls,omitempty"`
-	Root  *Node     `json:"root,omitempty"` // free / reset
-	RO    bool      `json:"ro,omitempty"`
-	Func  string    `json:"func,omitempty"` // pkgfunc
-	RejectingValidity bool `json:"rejecting_validity,omitempty"` // reset: the installed validity policy rejects the stack
-	Variant int     `json:"variant,omitempty"`
+	Mode              string    `json:"mode"`  // inert | free | reset | pkgfunc
+	State             string    `json:"state"` // zero-stack freed-stack zero-cond freed-cond init-cond nil-aux
+	Calls             []C17Call `json:"calls,omitempty"`
+	Root              *Node     `json:"root,omitempty"` // free / reset
+	RO                bool      `json:"ro,omitempty"`
+	Func              string    `json:"func,omitempty"`               // pkgfunc
+	RejectingValidity bool      `json:"rejecting_validity,omitempty"` // reset: the installed validity policy rejects the stack
+	Variant           int       `json:"variant,omitempty"`
 }
 
 var c17States = []string{"zero-stack", "freed-stack", "zero-cond", "freed-cond", "init-cond", "nil-aux"}
@@ -144,7 +145,7 @@ func runC17Inert(c C17Case) (st Stats, err error) {
 		}
 		st.Sub++
 		calls := 0
-		ctx := &synthCtx{Len: 2, Variant: call.Variant, calls: &calls}
+		ctx := &synthCtx{Len: 2, Variant: call.Variant, calls: &calls, ForceAny: call.Arg}
 		args, desc := synthArgs(m.Type, true, ctx)
 		var recv any
 		switch {
@@ -189,7 +190,7 @@ func runC17Inert(c C17Case) (st Stats, err error) {
 	st.NonTrivial = len(c.Calls) > 0
 	sig := c.State
 	for _, call := range c.Calls {
-		sig += fmt.Sprintf("|%s#%d", call.Method, call.Variant)
+		sig += fmt.Sprintf("|%s#%d%s", call.Method, call.Variant, call.Arg)
 	}
 	st.Sig = sig
 	return st, nil
@@ -205,6 +206,10 @@ func runC17Free(c C17Case) (st Stats, err error) {
 				tv.SetReadOnly(true)
 			}
 			before := Snapshot(tv)
+			// other handles to the same instance: a copy of the value, a parent holding it, a Condition holding it
+			held := tv
+			outer := stackage.And().Push("x", tv)
+			holder := stackage.Cond("k", stackage.Eq, tv)
 			h := tv
 			e := h.Free()
 			if c.RO {
@@ -215,7 +220,37 @@ func runC17Free(c C17Case) (st Stats, err error) {
 			}
 			if e != nil || !h.IsZero() || h.IsInit() {
 				v = violf("Free/stack", "Free on a writable Stack: err=%v IsZero=%v IsInit=%v", e, h.IsZero(), h.IsInit())
+				return
 			}
+			// whatever the other handles now see (the released instance or a still usable one), no call through
+			// them may panic
+			if p := guard(func() {
+				_ = held.IsInit()
+				_ = held.IsZero()
+				_ = held.Len()
+				_ = held.Kind()
+				_ = held.Valid()
+				_ = held.String()
+				_, _ = held.Unmarshal()
+				_, _ = held.Index(0)
+				_ = held.IsEqual(held)
+				held.Push("y")
+				_, _ = held.Pop()
+				_ = outer.String()
+				_, _ = outer.Unmarshal()
+				_ = outer.IsNesting()
+				_, _ = outer.Traverse(1, 0)
+				_ = outer.IsEqual(outer)
+				_ = holder.String()
+				_ = holder.Len()
+				_ = holder.IsNesting()
+				_ = holder.Valid()
+				_ = held.Free()
+			}); p != "" {
+				v = violf("Free/other-handle-panics", "after Free through one handle, a call through another handle to the same instance panicked: %s", p)
+				return
+			}
+			st.Class("free-with-other-handles")
 		case stackage.Condition:
 			if c.RO {
 				tv.SetReadOnly(true)
@@ -342,7 +377,13 @@ func enumC17(tier Tier, yield func(C17Case)) {
 	for _, state := range c17States {
 		for _, m := range methodsFor(state) {
 			for v := 0; v < c17Variants; v++ {
-				yield(C17Case{Mode: "inert", State: state, Calls: []C17Call{{m.Name, v}}})
+				yield(C17Case{Mode: "inert", State: state, Calls: []C17Call{{Method: m.Name, Variant: v}}})
+			}
+			if anyParamMethod(m) {
+				// every catalogue entry by name as the `any` argument(s)
+				for i, a := range awkwardCatalogue {
+					yield(C17Case{Mode: "inert", State: state, Calls: []C17Call{{Method: m.Name, Variant: 1 + i%2, Arg: a.Name}}})
+				}
 			}
 		}
 	}
@@ -367,7 +408,7 @@ func sortStrings(s []string) {
 }
 
 var c17ResetGen = TreeGen{MaxDepth: 2, MaxWidth: 6, Budget: 14, Kinds: stackKinds,
-	Leaf: func(t *rapid.T) Val { return genPrimVal(t, true, true) }, Conds: true, NilLeaves: true, EmptyStacks: true, Options: true, Caps: true, IndexOpts: true, MutexOpt: true, FIFOOpt: true, Ambient: true, WideRuns: true, NoNestAfter: true}
+	Leaf: func(t *rapid.T) Val { return genPrimVal(t, true, true) }, Conds: true, NilLeaves: true, EmptyStacks: true, Options: true, Caps: true, IndexOpts: true, MutexOpt: true, FIFOOpt: true, ZooLeaves: true, Ambient: true, WideRuns: true, NoNestAfter: true}
 
 func genC17(t *rapid.T, tier Tier) C17Case {
 	switch rapid.IntRange(0, 9).Draw(t, "mode") {
@@ -425,11 +466,11 @@ func init() {
 			"rapid: sequences of 1..5 calls on one inert receiver with variants 0..400, Free on writable/read-only Stacks and Conditions, Reset on stacks of every kind/capacity/options/policies with content including nil elements. " +
 			"Oracle: no panic; results are the zero result by type (strings lenient, Is* predicates not asserted, errors free); the instance stays zero except after Marshal / Condition.Init; Free zeroes the handle unless read-only; Reset leaves Len()==0 and the configuration untouched. " +
 			"non-trivial = every executed call; distinct = (state, method, variant) sequence",
-		Gen:      genC17,
-		Run:      runC17,
-		Enum:     enumC17,
-		EnumNote: "all reflected methods x 8 variants x 6 receiver states, all package-level functions x 24 variants",
-		Floors:   map[string]float64{"reset-with-nil": 0.05, "free-read-only": 0.02, "pkgfunc": 0.03, "state:freed-stack": 0.05, "state:nil-aux": 0.03, "initialising-call": 0.005, "free-cond-holding-read-only-stack": 0.002, "reset-under-rejecting-validity-policy": 0.02},
+		Gen:         genC17,
+		Run:         runC17,
+		Enum:        enumC17,
+		EnumNote:    "all reflected methods x 8 variants x 6 receiver states, all package-level functions x 24 variants",
+		Floors:      map[string]float64{"reset-with-nil": 0.05, "free-read-only": 0.02, "pkgfunc": 0.03, "state:freed-stack": 0.05, "state:nil-aux": 0.03, "initialising-call": 0.005, "free-cond-holding-read-only-stack": 0.002, "reset-under-rejecting-validity-policy": 0.02},
 		Assumptions: []string{"string results may be empty or a documented placeholder; Is* predicates (IsZero, IsEmpty, IsPadded) are not asserted on inert receivers", "package-level default loggers/levels are restored after each package-function call"},
 	})
 }
